@@ -478,6 +478,120 @@ func c05(run *ev.Run, tier string) {
 			}
 		}
 	}
+	// matches of ONE source that land on the same destination collide with each
+	// other (flattening a directory whose sub directories hold equally named files)
+	{
+		fd := filepath.Join(dir, "flat-é")
+		for _, sub := range []string{"a", "b", "c/d"} {
+			_ = os.MkdirAll(filepath.Join(fd, sub), 0o755)
+			_ = os.WriteFile(filepath.Join(fd, sub, "app.conf"), []byte(sub+"\n"), 0o644)
+		}
+		_ = os.WriteFile(filepath.Join(fd, "a", "only-a.conf"), []byte("a\n"), 0o644)
+		// one entry, flattened into a directory: its own matches collide
+		for _, src := range []string{fd + "/", fd, fd + "/*/app.conf", fd + "/**/app.conf"} {
+			for _, f := range []string{"deb", "rpm", "apk"} {
+				_, err := files.PrepareForPackager(files.Contents{{Source: src, Destination: "/etc/flat/"}}, 0o022, f, false, mtime)
+				run.Case(fmt.Sprintf("one-source-flattened|%s|%s", strings.TrimPrefix(src, fd), f), true)
+				if err == nil {
+					run.Violate("C05/collision-accepted/matches-of-one-source-flattened-into-a-directory", map[string]any{"source": "<dir>" + strings.TrimPrefix(src, fd), "destination": "/etc/flat/", "format": f})
+				} else if !errors.Is(err, files.ErrContentCollision) {
+					run.Violate("C05/collision-error-not-ErrContentCollision", map[string]any{"error": err.Error()})
+				}
+			}
+		}
+		for _, src := range []string{fd + "/*/app.conf", fd + "/**/app.conf", fd + "/a/app.conf"} {
+			for _, f := range []string{"deb", "rpm", "apk"} {
+				list := files.Contents{
+					{Source: src, Destination: "/etc/flat/app.conf", Type: "config"},
+					{Source: fd + "/b/app.conf", Destination: "/etc/flat/app.conf", Type: "config"},
+				}
+				_, err := files.PrepareForPackager(list, 0o022, f, false, mtime)
+				run.Case(fmt.Sprintf("same-destination-from-one-source|%s|%s", strings.TrimPrefix(src, fd), f), true)
+				if err == nil {
+					run.Violate("C05/collision-accepted/matches-of-sources-at-one-destination", map[string]any{"source": strings.TrimPrefix(src, fd), "format": f})
+				} else if !errors.Is(err, files.ErrContentCollision) {
+					run.Violate("C05/collision-error-not-ErrContentCollision", map[string]any{"error": err.Error()})
+				}
+			}
+		}
+	}
+	// glob sources below directories whose names hold multi-byte characters (F27:
+	// the pattern matcher nfpm uses loses the matches when two or more extra
+	// UTF-8 bytes precede a class or an alternation in the pattern)
+	for _, dn := range []string{"glob-中", "glob-éü", "jürgen/projékt", "glob-é"} {
+		gd := filepath.Join(dir, dn, "s")
+		_ = os.MkdirAll(gd, 0o755)
+		for _, n := range []string{"alpha.txt", "cee.txt", "bee.txt"} {
+			_ = os.WriteFile(filepath.Join(gd, n), []byte(n+"\n"), 0o644)
+		}
+		// structure below the deepest common directory of the matches
+		for _, sub := range []string{"a", "b"} {
+			_ = os.MkdirAll(filepath.Join(gd, "deep", sub), 0o755)
+			_ = os.WriteFile(filepath.Join(gd, "deep", sub, "x.txt"), []byte(sub+"\n"), 0o644)
+		}
+		if res, err := files.PrepareForPackager(files.Contents{{Source: gd + "/deep/*/x.txt", Destination: "/opt/g"}}, 0o022, "deb", false, mtime); err != nil {
+			run.Violate("C05/valid-list-rejected", map[string]any{"list": "<dir>/" + dn + "/s/deep/*/x.txt", "error": err.Error()})
+		} else {
+			got := map[string]bool{}
+			for _, c := range res {
+				got[c.Destination] = true
+			}
+			run.Case("glob-below-multibyte-directory|"+dn+"|deep/*/x.txt", true)
+			if !got["/opt/g/a/x.txt"] || !got["/opt/g/b/x.txt"] {
+				run.Violate("C05/glob-below-directory-with-multi-byte-characters/deepest-common-directory", map[string]any{"pattern": "<dir>/" + dn + "/s/deep/*/x.txt", "plan": ev.Short(planString(res), 400), "want": "/opt/g/a/x.txt, /opt/g/b/x.txt"})
+			}
+		}
+		for _, pat := range []string{"a*", "{a,c}*", "[ac]*", "?ee.txt", "*.txt"} {
+			want := map[string]int{"a*": 1, "{a,c}*": 2, "[ac]*": 2, "?ee.txt": 2, "*.txt": 3}[pat]
+			res, err := files.PrepareForPackager(files.Contents{{Source: gd + "/" + pat, Destination: "/opt/g"}}, 0o022, "deb", false, mtime)
+			run.Case("glob-below-multibyte-directory|"+dn+"|"+pat, true)
+			nfiles := 0
+			for _, c := range res {
+				if c.Type != files.TypeImplicitDir && c.Type != files.TypeDir {
+					nfiles++
+				}
+			}
+			if err != nil || nfiles != want {
+				kind := "other"
+				if strings.ContainsAny(pat, "{[?") {
+					kind = "class-alternation-or-single-character"
+				}
+				run.Violate("C05/glob-below-directory-with-multi-byte-characters/"+kind, map[string]any{"pattern": "<dir>/" + dn + "/s/" + pat, "error": fmt.Sprint(err), "files_planned": nfiles, "files_matching": want})
+			}
+		}
+	}
+	// a tree whose source is the current directory itself keeps the leading dots
+	// of the names it holds (serial: the working directory is process-wide)
+	{
+		td := filepath.Join(dir, "cwdtree")
+		_ = os.MkdirAll(filepath.Join(td, ".config", "sub"), 0o755)
+		for _, n := range []string{".env", "env", ".config/settings.ini", ".config/sub/.hidden", "plain.txt"} {
+			_ = os.WriteFile(filepath.Join(td, n), []byte(n+"\n"), 0o644)
+		}
+		if wd, err := os.Getwd(); err == nil && os.Chdir(td) == nil {
+			for _, src := range []string{".", "./", td} {
+				res, err := files.PrepareForPackager(files.Contents{{Source: src, Destination: "/srv/app", Type: "tree"}}, 0o022, "deb", false, mtime)
+				run.Case("tree-from-current-directory|"+map[bool]string{true: "absolute", false: src}[src == td], true)
+				if err != nil {
+					run.Violate("C05/valid-list-rejected", map[string]any{"list": "tree " + src + " (cwd is the tree)", "error": err.Error()})
+					continue
+				}
+				got := map[string]bool{}
+				for _, c := range res {
+					got[strings.TrimSuffix(c.Destination, "/")] = true
+				}
+				for _, want := range []string{"/srv/app/.env", "/srv/app/env", "/srv/app/.config", "/srv/app/.config/settings.ini", "/srv/app/.config/sub/.hidden", "/srv/app/plain.txt"} {
+					if !got[want] {
+						run.Violate("C05/tree-from-current-directory/entry-missing", map[string]any{"source": src, "missing": want, "plan": ev.Short(planString(res), 400)})
+					}
+				}
+				if len(res) != 9 { // srv, srv/app + .config, .config/sub + 5 files
+					run.Violate("C05/tree-from-current-directory/entry-count", map[string]any{"source": src, "entries": len(res), "plan": ev.Short(planString(res), 500)})
+				}
+			}
+			_ = os.Chdir(wd)
+		}
+	}
 	// the deb changelog entry is an entry like any other: a declared entry at
 	// its path collides
 	{
@@ -508,7 +622,6 @@ func c05(run *ev.Run, tier string) {
 	var big, sharedPlans int64
 	parallel(n3, 8, func(i int) {
 		root := newWorkDir("c05g")
-		defer removeWorkDir(root)
 		o := gen.DefaultOpts()
 		o.NEntries = [2]int{4, 14}
 		o.Overrides = i%2 == 1
